@@ -36,12 +36,12 @@ theorem exec_tagView (v : Variant) (s : St) (t : Nat) (i : Instr) (rest : List I
   cases i
   case register c =>
     by_cases hg : (!s.holds t || (s.cmd c).registered) = true
-    · left; simp only [exec, hg, if_true]
+    · left; simp only [exec, flushBody, hg, if_true]
     · right
       have hr : (s.cmd c).registered = false := by
         simp only [Bool.or_eq_true, not_or, Bool.not_eq_true] at hg; exact hg.2
       refine ⟨c, rfl, hr, ?_⟩
-      simp only [exec, hg]
+      simp only [exec, flushBody, hg]
       unfold tagView
       simp only [Bool.false_eq_true, if_false, setProg_cmdTag, setProg_cmd, updCmd_cmdTag, updCmd_cmd]
       congr 1
@@ -49,19 +49,19 @@ theorem exec_tagView (v : Variant) (s : St) (t : Nat) (i : Instr) (rest : List I
       by_cases hd : d = c <;> simp [hd]
   case cancelConts c r =>
     left
-    simp only [exec]
+    simp only [exec, flushBody]
     unfold tagView
     simp only [setProg_cmd, setProg_cmdTag, updCmd_cmd, updCmd_cmdTag, foldl_setCont2_cmd, foldl_setCont2_cmdTag]
     congr 1
     funext d
     split <;> rfl
   case srv a =>
-    left; simp only [exec]; split
+    left; simp only [exec, flushBody]; split
     · rfl
     · exact execSrv_tagView s t rest a
   all_goals
     left
-    simp only [exec]
+    simp only [exec, flushBody]
     repeat' split
     all_goals
       first
